@@ -433,6 +433,13 @@ var zGoodModules = []ZModule{
 	{"gopkg.in/check.v1", "v1.0.0", "gopkg"},
 	{"gopkg.in/a/b.v0", "v0.1.0", "gopkg"},
 	{"gopkg.in/x.v3-unstable", "v3.0.0", "gopkg"},
+	{"gopkg.in/x.v1-unstable", "v1.2.0", "gopkg"},
+	// "gopkg.in/yaml.v1 (or its -unstable form) may also have a v0.0.0- pseudo-version": the documented exception
+	{"gopkg.in/check.v1", "v0.0.0-20161208181325-20d25e280405", "gopkg-v1-with-v0-pseudo"},
+	{"gopkg.in/x.v1-unstable", "v0.0.0-20161208181325-20d25e280405", "gopkg-v1-with-v0-pseudo"},
+	{"gopkg.info/tools/lib", "v1.0.0", "host-starting-like-gopkg.in"},
+	{"gopkg.in.example.com/lib/v2", "v2.1.0", "host-starting-like-gopkg.in"},
+	{"example.com/m", "v2.0.0-rc.1+incompatible", "prerelease-incompatible"},
 	{"a.b", "v1.0.0", "one-element"},
 	{"x.y/v/w", "v1.0.0", "v-element-inside"},
 	{"example.com/v", "v1.0.0", "v-alone"},
@@ -450,6 +457,10 @@ var zBadModules = []ZModule{
 	{"example.com/m", "v1.0.0 ", "bad-version"},
 	{"example.com/m", "v1.0.0/x", "bad-version"},
 	{"example.com/m", "latest", "bad-version"},
+	{"example.com/m", "v2.0.0-rc.01+incompatible", "bad-version"},
+	{"example.com/m", "v1.0.0-01", "bad-version"},
+	{"example.com/m", "v1.0.0-rc..1", "bad-version"},
+	{"example.com/m", "v1.0.0-rc_1", "bad-version"},
 	{"example.com/m", "v2.0.0", "major-mismatch"},
 	{"example.com/m/v2", "v1.0.0", "major-mismatch"},
 	{"example.com/m/v2", "v3.0.0", "major-mismatch"},
@@ -486,7 +497,19 @@ var zBadModules = []ZModule{
 func ZGoodModule(r *rand.Rand) ZModule { return Pick(r, zGoodModules) }
 
 // ZBadModule returns a pair that breaks one rule.
-func ZBadModule(r *rand.Rand) ZModule { return Pick(r, zBadModules) }
+func ZBadModule(r *rand.Rand) ZModule {
+	if r.IntN(3) == 0 {
+		// a generated pair: a usual path with a version from the version soup (most are valid but not
+		// canonical or do not match the path, a good share break one rule of the version grammar)
+		p := Pick(r, []string{"example.com/m", "example.com/m", "example.com/m/v2", "gopkg.in/yaml.v2", "gopkg.in/x.v1-unstable", "gopkg.in/check.v1"})
+		v := Version(r)
+		if r.IntN(2) == 0 {
+			v = ValidVersion(r, true)
+		}
+		return ZModule{p, v, "generated-pair"}
+	}
+	return Pick(r, zBadModules)
+}
 
 // ZHostileName returns one (usually invalid) archive entry name relative to
 // the module prefix: the union of the list pools plus archive-only forms.
